@@ -140,6 +140,10 @@ def copyfile(obj, mkdirs=False):
         fp = obj.location
     else:
         fp = existent_fp = obj.location + "#new"
+        # a leftover of an interrupted merge must not leak into the new entry:
+        # data sources open an existing path without truncating it, and
+        # symlink/mkfifo/mknod refuse to reuse the name.
+        unlink_if_exists(fp)
 
     if fs.isreg(obj):
         obj.data.transfer_to_path(fp)
